@@ -151,7 +151,9 @@ func genVcOps(c *Chooser, w *World, ndocs uint64, n int, withTicks bool) []vcOp 
 			delete(open, h)
 		default:
 			if withTicks {
-				nt := 1 + c.Skewed(6, "vc.nticks")
+				// a burst of ticks: an idle entry needs several passes before its
+				// moving average decays below the eviction threshold
+				nt := 1 + c.Choose(12, "vc.nticks")
 				for j := 0; j < nt; j++ {
 					ops = append(ops, vcOp{Kind: "tick"})
 				}
@@ -160,6 +162,21 @@ func genVcOps(c *Chooser, w *World, ndocs uint64, n int, withTicks bool) []vcOp 
 	}
 	for _, h := range sortedIntKeys(open) {
 		ops = append(ops, vcOp{Kind: "close", H: h})
+	}
+	// idle phase at the end of some histories: everything closed, ticks until
+	// eviction, then one more open + search (reload after eviction)
+	if withTicks && c.Bool("vc.idlephase") {
+		for j := 0; j < 10; j++ {
+			ops = append(ops, vcOp{Kind: "tick"})
+		}
+		o := vcOp{Kind: "open", H: nextH, Field: fields[0], Filter: c.Bool("vc.filter2")}
+		ops = append(ops, o)
+		q := make([]float32, dimsOf[fields[0]])
+		for j := range q {
+			q[j] = float32(c.Choose(7, "vc.q2")) - 3
+		}
+		ops = append(ops, vcOp{Kind: "search", H: nextH, Q: q, K: 3})
+		ops = append(ops, vcOp{Kind: "close", H: nextH})
 	}
 	return ops
 }
